@@ -169,6 +169,12 @@ class H2Protocol:
                 except priority.DeadlockError:
                     await self.has_data.wait()
                     await self.has_data.clear()
+                except RecursionError:
+                    # The dependency chain is too deep to schedule,
+                    # only a client prioritising streams it never
+                    # opens can build it.
+                    await self._refuse_priorities()
+                    break
                 else:
                     await self._send_data(stream_id)
         finally:
@@ -353,29 +359,33 @@ class H2Protocol:
 
     async def _priority_updated(self, event: h2.events.PriorityUpdated) -> None:
         try:
-            self.priority.reprioritize(
-                stream_id=event.stream_id,
-                depends_on=event.depends_on or None,
-                weight=event.weight,
-                exclusive=event.exclusive,
-            )
-        except priority.MissingStreamError:
-            # Received PRIORITY frame before HEADERS frame
             try:
+                self.priority.reprioritize(
+                    stream_id=event.stream_id,
+                    depends_on=event.depends_on or None,
+                    weight=event.weight,
+                    exclusive=event.exclusive,
+                )
+            except priority.MissingStreamError:
+                # Received PRIORITY frame before HEADERS frame
                 self.priority.insert_stream(
                     stream_id=event.stream_id,
                     depends_on=event.depends_on or None,
                     weight=event.weight,
                     exclusive=event.exclusive,
                 )
-            except priority.TooManyStreamsError:
-                # The client is prioritising streams it never opens
-                self.connection.close_connection(h2.errors.ErrorCodes.ENHANCE_YOUR_CALM)
-                await self._flush()
-                await self.send(Closed())
-                return
-            self.priority.block(event.stream_id)
+                self.priority.block(event.stream_id)
+        except priority.TooManyStreamsError:
+            # The client is prioritising (or depending on) streams it
+            # never opens
+            await self._refuse_priorities()
+            return
         await self.has_data.set()
+
+    async def _refuse_priorities(self) -> None:
+        self.connection.close_connection(h2.errors.ErrorCodes.ENHANCE_YOUR_CALM)
+        await self._flush()
+        await self.send(Closed())
 
     async def _create_stream(self, request: h2.events.RequestReceived) -> None:
         raw_path = b""  # A plain CONNECT request has no :path
@@ -411,6 +421,18 @@ class H2Protocol:
             await self._flush()
             return
 
+        try:
+            self.priority.insert_stream(request.stream_id)
+        except priority.DuplicateStreamError:
+            # Recieved PRIORITY frame before HEADERS frame
+            pass
+        except priority.TooManyStreamsError:
+            # The tree is full of streams the client never opened
+            await self._refuse_priorities()
+            return
+        else:
+            self.priority.block(request.stream_id)
+
         if method == "CONNECT":
             self.streams[request.stream_id] = WSStream(
                 self.app,
@@ -436,13 +458,6 @@ class H2Protocol:
                 request.stream_id,
             )
         self.stream_buffers[request.stream_id] = StreamBuffer(self.context.event_class)
-        try:
-            self.priority.insert_stream(request.stream_id)
-        except priority.DuplicateStreamError:
-            # Recieved PRIORITY frame before HEADERS frame
-            pass
-        else:
-            self.priority.block(request.stream_id)
 
         await self.streams[request.stream_id].handle(
             Request(
